@@ -18,6 +18,7 @@ event C:
 
 x: uint256
 arr: uint256[4]
+tv: transient(uint256)
 
 @internal
 def a(v: uint256) -> uint256:
@@ -38,6 +39,15 @@ def c(v: uint256) -> bool:
 def bump(d: uint256) -> uint256:
     log B(v=self.x)
     self.x += d
+    return self.x
+
+@internal
+def bump2(n: uint256) -> uint256:
+    # a loop and two call sites keep this function from being inlined
+    for i: uint256 in range(n, bound=3):
+        log B(v=self.x ^ i)
+    self.x = self.x ^ (n << 4)
+    self.tv = self.tv ^ (n << 8)
     return self.x
 
 @internal
@@ -90,6 +100,8 @@ def family(quick=True):
     T["byvalue.local-copy"] = _f("x: uint256, y: uint256", "uint256", "self.x = x\nt: uint256 = self.x\nself.bump(y)\nreturn t")
     T["byvalue.array-copy"] = _f("x: uint256", "uint256", "self.arr = [x, 1, 2, 3]\nt: uint256[4] = self.arr\nself.arr[0] = 77\nreturn t[0]")
     T["byvalue.binop-read-before-effect"] = _f("x: uint256, y: uint256", "uint256", "self.x = x % 100\nreturn (self.x << 128) ^ self.bump(y % 100)")
+    T["byvalue.save-restore-around-call"] = _f("x: uint256, y: uint256", "uint256", "self.x = x\nsaved: uint256 = self.x\nr: uint256 = self.bump2(y & 3)\nself.x = saved\nreturn r ^ self.bump2(1)")
+    T["byvalue.save-restore-transient"] = _f("x: uint256, y: uint256", "uint256", "self.tv = x\nsaved: uint256 = self.tv\nr: uint256 = self.bump2(y & 3)\nself.tv = saved\nreturn r ^ self.bump2(1) ^ self.tv")
     T["assert.once"] = _f("x: uint256", "uint256", "assert self.c(x)\nreturn 1")
     T["return.once"] = _f("x: uint256", "uint256", "if self.c(x):\n    return self.a(x)\nreturn self.b(x)")
     return T
